@@ -416,8 +416,8 @@ fn check(tier: &str) -> i32 {
         if status == "failed" {
             let sig = format!("loom/{}", m);
             let first: String = text.lines().filter(|l| l.contains("panicked") || l.contains("deadlock") || l.contains("resumed")).take(3).collect::<Vec<_>>().join(" | ");
-            let _ = std::fs::create_dir_all("/verif/replays");
-            let path = format!("/verif/replays/C19-loom-{}-pb{}.json", m, pb);
+            let _ = std::fs::create_dir_all(format!("{}/replays", out_dir()));
+            let path = format!("{}/replays/C19-loom-{}-pb{}.json", out_dir(), m, pb);
             let _ = std::fs::write(&path, serde_json::to_string_pretty(&serde_json::json!({"property": "C19", "unit": format!("loom/{}", m), "signature": sig, "preemption_bound": pb, "detail": first, "output_tail": text.lines().rev().take(30).collect::<Vec<_>>()})).unwrap());
             if let Some(k) = known(&sig) {
                 println!("KNOWN-FINDING: property=C19 {}", k);
@@ -461,11 +461,16 @@ fn check(tier: &str) -> i32 {
         "assumptions": ["loom's model of threads and C11 atomics", "the Notify model (bound to tokio::sync::Notify by the conformance run; linearizability of the real Notify operations assumed)", "flow_control.rs uses no synchronisation besides std atomics and tokio::sync::Notify (enforced by build.rs)"],
         "wall_s": start.elapsed().as_secs_f64(), "violations": violations,
     });
-    let _ = std::fs::create_dir_all("/verif/evidence");
-    std::fs::write("/verif/evidence/C19.json.tmp", serde_json::to_string_pretty(&doc).unwrap()).unwrap();
-    std::fs::rename("/verif/evidence/C19.json.tmp", "/verif/evidence/C19.json").unwrap();
+    let _ = std::fs::create_dir_all(format!("{}/evidence", out_dir()));
+    std::fs::write(format!("{}/evidence/C19.json.tmp", out_dir()), serde_json::to_string_pretty(&doc).unwrap()).unwrap();
+    std::fs::rename(format!("{}/evidence/C19.json.tmp", out_dir()), format!("{}/evidence/C19.json", out_dir())).unwrap();
     eprintln!("[C19] tier={} loom executions={} conformance sequences={} violations={} wall={:.1}s", tier, iters, seqs, violations, start.elapsed().as_secs_f64());
     exit
+}
+
+/// /verif, unless VERIF_OUT_DIR says otherwise (mutation lab).
+fn out_dir() -> String {
+    std::env::var("VERIF_OUT_DIR").unwrap_or_else(|_| "/verif".to_string())
 }
 
 fn main() {
